@@ -513,6 +513,25 @@ theorem rejected_row_keeps_col_calls (x : Ext) (cfg : Cfg) (s : SW) (cell : Byte
     (setRow x cfg s cell values o).1.sheetWritten = s.sheetWritten := by
   rw [rejected_row_noop x cfg s cell values o e h]
 
+/-! ## the roll-back of a row that is rejected after it has started -/
+
+/-- **`SetRow`'s `rollback` closure restores the whole writer state.** `setRowRaw` runs `SetRow` in the code's own order:
+remember `sheetWritten` and `buf.Len()`, `writeSheetData` (which on the very first row writes the pre-data and sets the
+latch), the row start tag, one cell after the other — and on a rejected cell (past column XFD, over-long rich text)
+`sw.sheetWritten = sheetWritten; sw.rawData.buf.Truncate(size)`. For every state (first row or not), every spill
+configuration and every row this is the effect `setRow` states, and a rejected call returns exactly the old state: latch,
+buffer (hence its length), temp file, counters, columns, accepted rows. -/
+theorem rollback_restores (x : Ext) (cfg : Cfg) (s : SW) (cell : Bytes) (values : List Item) (o : RowOpts) :
+    setRowRaw x cfg s cell values o = setRow x cfg s cell values o ∧
+    ∀ e, (setRowRaw x cfg s cell values o).2 = some e →
+      (setRowRaw x cfg s cell values o).1 = s ∧
+      (setRowRaw x cfg s cell values o).1.sheetWritten = s.sheetWritten ∧
+      (setRowRaw x cfg s cell values o).1.raw.buf.length = s.raw.buf.length := by
+  refine ⟨setRowRaw_eq_setRow x cfg s cell values o, fun e h => ?_⟩
+  rw [setRowRaw_eq_setRow] at h ⊢
+  rw [rejected_row_noop x cfg s cell values o e h]
+  exact ⟨rfl, rfl, rfl⟩
+
 /-! ## guards of the column calls; the `<cols>` element is never empty -/
 
 /-- **Guard of `SetColWidth`, both directions.** The call is accepted exactly when no row has been written yet, both
@@ -585,6 +604,16 @@ theorem witness_accepted :
 /-- … the reconnaissance witness `SetRow("XFD2", {1, 2})` is rejected (and by `rejected_row_noop` leaves no trace) … -/
 theorem witness_rejected :
     (setRow x0 Cfg.code s0 xfd2 [.plain (.int 1), .plain (.int 2)] RowOpts.zero).2 = some (.ref .colNumber) := by
+  decide +kernel
+
+/-- … a very FIRST row that is rejected mid-way (`SetRow("XFD1", {1, 2})` on a new writer): the loop had already written
+the pre-data, the row start and one cell (the buffer grew) when the second cell was refused, and the roll-back returns the
+new writer, latch still open … -/
+theorem witness_first_row_rolled_back :
+    let w1 := (writeSheetData s0).raw.write (lit "<row r=\"1\">")
+    let r := rowLoop x0 s0.colStyles 0 1 16384 [.plain (.int 1), .plain (.int 2)] w1
+    r.2 = some (.ref .colNumber) ∧ s0.raw.buf.length < r.1.buf.length ∧ s0.sheetWritten = false ∧
+    setRowRaw x0 Cfg.code s0 (lit "XFD1") [.plain (.int 1), .plain (.int 2)] RowOpts.zero = (s0, some (.ref .colNumber)) := by
   decide +kernel
 
 /-- … and a tiny threshold really spills: the two configurations of `spill_independent` can differ in `tmp`. -/
